@@ -107,6 +107,7 @@ class RFormula:
         self.params = [tuple(p) for p in params]
         self.refs = dict(refs) if refs else None     # {name: expression text over the parameters}
         self.base = base                              # RSpace or None
+        self.base_path = base.path() if base is not None else None    # the source text names the base by path
         self.lam = lam
 
     def sig(self):
@@ -410,6 +411,8 @@ class Evaluator:
             for k, expr in sorted(f.refs.items()):
                 extra[k] = eval(expr, {"__builtins__": builtins}, env)     # noqa: S307  expressions over parameters only
         if f.base is not None:
+            if getattr(f.base, "deleted", False) or f.base.path() != f.base_path:
+                raise RefError("the formula names its base by a path that no longer leads to it")
             base = f.base
         it = Inst(base, "item", parent=inst, args=argd, extra=extra)
         it.root = it
